@@ -116,7 +116,9 @@ def thin(cases, res):
     return cases
   special = [c for c in cases if not c['strict']]
   plain = [c for c in cases if c['strict']]
-  special = special[:cap // 3] if len(special) > cap // 3 else special
+  if len(special) > cap // 3:
+    st = len(special) / float(cap // 3)
+    special = [special[int(i * st)] for i in range(cap // 3)]
   room = cap - len(special)
   step = len(plain) / float(room)
   off = res.seed % max(1, int(step))
@@ -510,6 +512,7 @@ def run(res):
   t0 = time.time()
   results = pool_map(work, [(i, c, res.seed) for i, c in enumerate(cases)])
   kinds, ucs, combos = {}, {True: 0, False: 0}, set()
+  per_key = {}
   for out in results:
     res.traces += out['traces']
     for k in out['keys']:
@@ -520,9 +523,11 @@ def run(res):
       ucs[k] += v
     combos.update(out['combos'])
     for clause, case, detail, key in out['viol']:
-      if len(res.violations) < 400:
+      per_key[key] = per_key.get(key, 0) + 1
+      if per_key[key] <= (300 if key is None else 60):   # known classes never crowd out a plain violation
         res.violate(clause, case, detail, finding_key=key)
   res.extra['replay_wall_s'] = round(time.time() - t0, 1)
+  res.extra['failing_calls_by_class'] = {str(k): v for k, v in per_key.items()}
   res.extra['frames_by_kind'] = kinds
   res.extra['frames_by_use_cooldown'] = {str(k): v for k, v in ucs.items()}
   res.extra['summary_argument_combinations_used'] = len(combos)
